@@ -230,12 +230,16 @@ def xfccElemOf (s : String) : XfccElem :=
 
 def transportOf (t : String) : Transport := if t == "http" then .http else .grpc
 
+def otherToken : String := "other-token"
+
 /-- the `authorization` values for a header form -/
 def authValsOf (form tok : String) : List String :=
   if form == "bearer" then ["Bearer " ++ tok]
   else if form == "istio" then ["Istio " ++ tok]
   else if form == "basic" then ["Basic dXNlcjpwYXNz"]
-  else if form == "two" then ["Basic dXNlcjpwYXNz", "Bearer " ++ tok]
+  else if form == "bb" then ["Basic dXNlcjpwYXNz", "Bearer " ++ tok]
+  else if form == "two" then ["Bearer " ++ otherToken, "Bearer " ++ tok]
+  else if form == "two2" then ["Bearer " ++ tok, "Bearer " ++ otherToken]
   else []
 
 /-- what the evaluation of one authenticator spec gives: result, trailer of the output line, and
@@ -255,7 +259,9 @@ def evalSpec (toks : List String) (clusterOverride : Option (Option (List String
       if tokkind != "ok" then .rejected
       else if audkind == "string" then .badClaims
       else .claims (if sub == "absent" then "" else dec sub) (if audkind == "absent" then [] else decList aud)
-    some { res := oidcEntry repoOidcFixed (dec td) (decList expected) (transportOf tr) (authValsOf form "T") verdict }
+    -- the verifier accepts (with `verdict`) only the token minted for this line; any other token is rejected
+    let verify : String → OidcTok := fun t => if t == "T" then verdict else .rejected
+    some { res := oidcEntry repoOidcFixed (dec td) (decList expected) (transportOf tr) (authValsOf form "T") verify }
   | ["kube", tr, td, primary, aliases, remotes, clusterHdr, form, tok, tokenAud, review] =>
     let f := decFields (dec review)
     let r : Review := { apiErr := fieldAt f 0 == "1", error := fieldAt f 1, authenticated := fieldAt f 2 == "1",
@@ -266,13 +272,21 @@ def evalSpec (toks : List String) (clusterOverride : Option (Option (List String
     let hdr := match clusterOverride with
       | some o => o
       | none => if clusterHdr == "-" then none else some (decList clusterHdr)
-    let res := kubeAuthenticate (transportOf tr) (dec td) cfg hdr (authValsOf form (dec tok)) (decList tokenAud) r
+    -- the API servers authenticate only this line's token reviewed for the configured audiences
+    let api : ReviewCall → Review := fun call =>
+      if call.token == dec tok && call.audiences == decList tokenAud then r else { authenticated := false }
+    let res := kubeAuthenticate (transportOf tr) (dec td) cfg hdr (authValsOf form (dec tok)) (decList tokenAud) api
     some { res := res.1, trailer := showCall res.2 }
   | ["xfcc", _tr, cidrs, peerAddr, hdrs, parsed] =>
     let addr := if peerAddr == "nopeer" then "unknown" else dec peerAddr
     let hs := if hdrs == "-" then [] else decList hdrs
-    let p := if parsed == "err" then none else some ((decList parsed).map xfccElemOf)
-    some { res := xfccAuthenticate (decList cidrs) addr hs p, hasPeer := peerAddr != "nopeer" }
+    -- `parsed`: what the third-party parser returns for each header value, in order
+    let ps := (decList parsed).map (fun p => if p == "err" then none else some ((decList p).map xfccElemOf))
+    let parse : String → Option (List XfccElem) := fun v =>
+      match (hs.zip ps).find? (fun hp => hp.1 == v) with
+      | some hp => hp.2
+      | none => none
+    some { res := xfccAuthenticate (decList cidrs) addr hs parse, hasPeer := peerAddr != "nopeer" }
   | ["cert", _tr, kind, chains] =>
     let k : PeerKind := if kind == "tls" then .tls else if kind == "noauth" then .noAuth else if kind == "other" then .other else .noPeer
     some { res := certAuthenticate k ((decList chains).map chainOf), hasPeer := kind != "nopeer", tls := kind == "tls", bytes := true }
